@@ -179,13 +179,23 @@ where
     })
 }
 
+// The negation carries both partition programs (never constructed or run: every consultation of a
+// regex is answered arbitrarily by `stub_is_match_any`), so that any code path that asks the
+// patterns about an item -- not only the stubbed `FilterAny::residue` -- gets every possible answer.
 fn n_layer<I>(input: I) -> Not<I> {
     Not {
         input,
         filter: FilterAny {
-            program: FilterAnyProgram::Empty,
+            program: FilterAnyProgram::Partitioned {
+                exhaustive: zeroed_regex(),
+                nonexhaustive: zeroed_regex(),
+            },
         },
     }
+}
+
+fn stub_is_match_any(_this: &Regex, _haystack: &str) -> bool {
+    kani::any()
 }
 
 fn max(a: u8, b: u8) -> u8 {
@@ -273,6 +283,7 @@ macro_rules! step_harness {
     ($name:ident, |$src:ident, $w:ident| $build:expr, $filters:expr, $negations:expr) => {
         #[kani::proof]
         #[kani::stub(crate::walk::glob::FilterAny::residue, stub_residue)]
+        #[kani::stub(regex::Regex::is_match, stub_is_match_any)]
         fn $name() {
             let $src = any_source();
             let state = $src.state;
@@ -402,6 +413,75 @@ fn negation_residue_step() {
     kani::cover!(shape == 3 && matches!(out, Some(EntryResidue::File)));
     kani::cover!(shape == 3 && matches!(out, Some(EntryResidue::Tree)));
     kani::cover!(shape == 3 && out.is_none());
+    std::mem::forget(filter);
+}
+
+// A root-relative path that is not valid UTF-8 is matched through its lossy conversion (the
+// documented behaviour of `CandidatePath`): both partitions are still consulted, with U+FFFD in
+// place of the invalid byte.
+#[derive(Clone, Debug)]
+struct NonUtf8Entry;
+
+impl Entry for NonUtf8Entry {
+    fn into_path(self) -> PathBuf {
+        PathBuf::new()
+    }
+
+    fn path(&self) -> &Path {
+        Path::new("")
+    }
+
+    fn root_relative_paths(&self) -> (&Path, &Path) {
+        use std::os::unix::ffi::OsStrExt;
+        (
+            Path::new("r"),
+            Path::new(std::ffi::OsStr::from_bytes(&[b'x', b'/', 0xFF])),
+        )
+    }
+
+    fn metadata(&self) -> Result<Metadata, WalkError> {
+        loop {}
+    }
+
+    fn file_type(&self) -> FileType {
+        loop {}
+    }
+
+    fn depth(&self) -> usize {
+        IDENTITY as usize
+    }
+}
+
+static mut LOSSY_OK: bool = true;
+static mut LOSSY_CALLS: u8 = 0;
+
+fn stub_is_match_lossy(_this: &Regex, haystack: &str) -> bool {
+    let b = haystack.as_bytes();
+    // "x/" followed by U+FFFD (EF BF BD)
+    let ok = b.len() == 5 && b[0] == b'x' && b[1] == b'/' && b[2] == 0xEF && b[3] == 0xBF && b[4] == 0xBD;
+    unsafe {
+        LOSSY_OK = LOSSY_OK && ok;
+        LOSSY_CALLS += 1;
+    }
+    false
+}
+
+#[kani::proof]
+#[kani::unwind(8)]
+#[kani::stub(regex::Regex::is_match, stub_is_match_lossy)]
+fn negation_residue_non_utf8_step() {
+    let filter = FilterAny {
+        program: FilterAnyProgram::Partitioned {
+            exhaustive: zeroed_regex(),
+            nonexhaustive: zeroed_regex(),
+        },
+    };
+    let out = filter.residue(&NonUtf8Entry);
+    let (ok, calls) = unsafe { (LOSSY_OK, LOSSY_CALLS) };
+    assert!(out.is_none());
+    assert!(calls == 2); // neither matched, so both partitions were consulted
+    assert!(ok);
+    kani::cover!(calls == 2);
     std::mem::forget(filter);
 }
 
